@@ -41,6 +41,44 @@ func runC07(res *lib.Result, tier string, seed int64, args []string) error {
 				got[fmt.Sprintf("t%d@%s", t, locOfRange(d.Range))] = true
 			}
 		}
+		if pi%8 == 0 {
+			// the same text in two files of one workspace: undefined reads (2) and unused locals (4, 17) do not depend on the
+			// other file (it assigns the same globals), so both files must show what the single file showed
+			dir2 := lib.ScratchDir("c07tw")
+			if err := lib.WriteWorkspace(dir2, map[string]string{"a.lua": src, "b.lua": src, "c.lua": "local other = 1\n"}); err != nil {
+				return err
+			}
+			tw, err := lib.StartSession(dir2, lib.AllChecksOptions())
+			if err != nil {
+				os.RemoveAll(dir2)
+				return err
+			}
+			view := tw.DiagView()
+			tw.Close()
+			os.RemoveAll(dir2)
+			pick := func(m map[string]bool) []string {
+				var out []string
+				for k := range m {
+					if !strings.HasPrefix(k, "t3@") {
+						out = append(out, k)
+					}
+				}
+				sort.Strings(out)
+				return out
+			}
+			for _, f := range []string{"a.lua", "b.lua"} {
+				gotF := map[string]bool{}
+				for _, d := range view[f] {
+					if t := d.ErrType(); t == 2 || t == 4 || t == 17 {
+						gotF[fmt.Sprintf("t%d@%s", t, locOfRange(d.Range))] = true
+					}
+				}
+				if a, b := strings.Join(pick(gotF), " "), strings.Join(pick(got), " "); a != b {
+					res.AddViolation("impl-vs-spec", fmt.Sprintf("two files a.lua and b.lua with this same text: %s shows [%s], the text alone in a workspace shows [%s] (types 2, 4, 17)", f, a, b), src, false)
+				}
+			}
+			res.Dist("twin-files")
+		}
 		// expectation from the binder (traversal binding = what the passes see)
 		reads := map[string]int{}
 		for _, o := range occs {
